@@ -451,7 +451,7 @@ def modelEx : Model :=
 /-- …and every node is covered by `C13_model_roundtrip_predict_partial` -/
 theorem modelEx_ok (cb : QVal → PyVal) : ∀ n ∈ modelEx, NodeOK (env cb) n.node := by
   simp only [modelEx, List.forall_mem_cons]
-  refine ⟨NodeOK.keras _ _ rfl, NodeOK.q _ ls_QDense rfl rfl rfl (denseEx_ok cb), NodeOK.keras _ _ rfl, ?_⟩
+  refine ⟨NodeOK.keras _ _ rfl rfl, NodeOK.q _ ls_QDense rfl rfl rfl (denseEx_ok cb), NodeOK.keras _ _ rfl rfl, ?_⟩
   simp
 
 /-- so the three routes rebuild `modelEx` and the rebuilt model predicts identically, whatever the
@@ -461,6 +461,80 @@ example {W V : Type} [Inhabited V] (cb : QVal → PyVal) :
       ∀ (S : Sem W V) (ws : Nat → W) (inputs : List V),
         predict (env cb) S m' ws inputs = predict (env cb) S modelEx ws inputs :=
   C13_model_roundtrip_predict_partial (env cb) modelEx (modelEx_ok cb)
+
+/-! ## the constructor's post-hoc switch `alpha None → 'auto_po2'` (`_set_trainable_parameter`)
+
+The layer constructors call `_set_trainable_parameter()` on their weight quantizers AFTER the
+quantizer was constructed.  A rebuilt model constructs the quantizer from the config (which already
+says 'auto_po2') and the constructor calls it again.  At the level of the configuration: -/
+
+/-- the switch is idempotent … -/
+theorem C13_set_trainable_idempotent (s : QSpec) (q : QObj) :
+    setTrainable s (setTrainable s q) = setTrainable s q := setTrainable_idem s q
+
+/-- … hence so is everything the constructor does to a single argument: the `normal` hypothesis of
+    `LayerOK` (re-running the constructor changes no read argument) holds for EVERY argument a
+    constructor produced, for every class, every slot and every quantizer -/
+theorem C13_constructor_normalisation_idempotent (E : Env) (spec : LSpec) (k : Kind) (a : Arg) :
+    normLocal E spec k (normLocal E spec k a) = normLocal E spec k a := normLocal_idem E spec k a
+
+/-- the classes that have the switch: the complete list (each of them is generated as a weight
+    quantizer with alpha left at None, as object and as string; bernoulli is random at inference) -/
+theorem C13_trainable_classes_list :
+    (qSpecs.filter fun s => s.trainable != 0).map (·.name) =
+      ["quantized_bits", "bernoulli", "stochastic_ternary", "ternary", "stochastic_binary", "binary",
+       "quantized_linear", "quantized_hswish"] := by
+  decide
+
+/-- concretely, for `quantized_linear()` in a kernel slot: the constructor result says 'auto_po2' and
+    symmetric, its config round trip followed by the constructor gives the very same object -/
+theorem C13_default_alpha_linear_witness :
+    let q0 : QObj := ⟨"quantized_linear", qs_quantized_linear.params, []⟩
+    let q := setTrainable qs_quantized_linear q0
+    q0.args.lookup "alpha" = some .none ∧ q.args.lookup "alpha" = some (.str "auto_po2") ∧
+      (qFromConfig qs_quantized_linear (qGetConfig qs_quantized_linear q)).map
+        (setTrainable qs_quantized_linear) = .ok q := by
+  refine ⟨rfl, rfl, rfl⟩
+
+/-! ## stock Keras layers inside the custom-object scope
+
+The three routes deserialise the WHOLE model with the library's table installed as custom objects,
+and Keras looks a name up among the custom objects first: a table key that is also a name Keras
+resolves itself (its built-in activation names) would replace Keras' function in every stock layer
+that uses the name. -/
+
+/-- no key of the table is a built-in Keras activation name (`hard_sigmoid` is both a Keras
+    activation and a different function exported by qkeras.quantizers: it must stay out of the table) -/
+theorem C13_table_shadows_no_keras_name :
+    ∀ n ∈ kerasActivationNames, customObjects.contains n = false := by
+  decide
+
+/-- hence a stock layer whose identifier strings are Keras activation names comes back with the same
+    config after every route … -/
+theorem C13_keras_node_unshadowed (cb : QVal → PyVal) (cfg : Cfg)
+    (h : ∀ kv ∈ cfg, identifierKeys.contains kv.1 = true → ∀ s, kv.2 = .str s → s ∈ kerasActivationNames) :
+    kerasNodeCfg (env cb) cfg = cfg := by
+  apply kerasNodeCfg_id
+  intro kv hkv hk s hs
+  exact C13_table_shadows_no_keras_name s (h kv hkv hk s hs)
+
+/-- … and is covered by the model round trip (`NodeOK.keras`) -/
+theorem C13_keras_node_ok (cb : QVal → PyVal) (c : String) (cfg : Cfg)
+    (hc : (env cb).isLibraryClass c = false)
+    (h : ∀ kv ∈ cfg, identifierKeys.contains kv.1 = true → ∀ s, kv.2 = .str s → s ∈ kerasActivationNames) :
+    NodeOK (env cb) (.keras c cfg) :=
+  NodeOK.keras c cfg hc (C13_keras_node_unshadowed cb cfg h)
+
+/-- what the model says of a table that did contain such a name: `Activation("hard_sigmoid")` would
+    come back denoting the table's function -/
+theorem C13_shadowing_witness (cb : QVal → PyVal) :
+    let E' : Env := { env cb with customObjects := "hard_sigmoid" :: customObjects }
+    nodeFromConfig E' ⟨"Activation", [("name", .str "a"), ("activation", .str "hard_sigmoid")], [0]⟩ =
+        .ok (.keras "Activation" [("name", .str "a"),
+          ("activation", .dict [("custom_object", .str "hard_sigmoid")])]) ∧
+      nodeFromConfig (env cb) ⟨"Activation", [("name", .str "a"), ("activation", .str "hard_sigmoid")], [0]⟩ =
+        .ok (.keras "Activation" [("name", .str "a"), ("activation", .str "hard_sigmoid")]) := by
+  constructor <;> rfl
 
 /-! ## `get_config` that raises: a plain Python value where the class calls `.tolist()`
 
